@@ -134,6 +134,8 @@ def _inv_small(G):
 
 def sym_pinverse(g):
     """closed form of the Moore-Penrose inverse for full rank: (g^T g)^-1 g^T (tall / square) or g^T (g g^T)^-1 (wide)"""
+    if g.dim() == 2:
+        return sym_pinverse(g.unsqueeze(0)).squeeze(0)
     gt = g.transpose(-1, -2)
     PINV_USED.append(tuple(g.shape))
     if g.shape[-2] >= g.shape[-1]:
